@@ -90,6 +90,10 @@ def conventional_plus(r, idx):
     lnp = main.message("ListThingNamesResponse"); lnp.field("names", 1, "string", repeated=True).field("next_page_token", 2, "string")
     lnq = main.message("ListThingNamesRequest"); lnq.field("parent", 1, "string").field("page_size", 2, "int32").field("page_token", 3, "string")
     svc.rpc("ListThingNames", lnq.fqn, lnp.fqn, http=("get", "/v1/{parent=projects/*}/thingNames"), sigs=["parent"])
+    # a LATER paged method whose item type lives in another file of the API than every other paged method's types
+    lmq = main.message("ListMarksRequest"); lmq.field("parent", 1, "string").field("page_size", 2, "int32").field("page_token", 3, "string")
+    lmp = main.message("ListMarksResponse"); lmp.field("marks", 1, mark.fqn, repeated=True).field("next_page_token", 2, "string")
+    svc.rpc("ListMarks", lmq.fqn, lmp.fqn, http=("get", "/v1/{parent=projects/*}/marks"), sigs=["parent"])
     feats.append("enum-and-scalar-paged-methods")
     # two path variables nested under the SAME request sub-message (plus a third level)
     pos = main.message("ThingPosition"); pos.field("shelf", 1, "string").field("thing_id", 2, "string").field("slot", 3, "int32")
